@@ -8,16 +8,16 @@ T = {
  "C01-s2": ("C01", "two directly nested unknown-size masters ended by one following element", "NOT CAUGHT: the closing loop lives in read_next (DESIGN §11)"),
  "C03-s1": ("C03", "signed payload of 1..7 bytes whose first byte is exactly 0x80", "c16_arr_to_i64 (C16), doc_i2_i0 (C03)"),
  "C03-s2": ("C03", "payload larger than the current buffer while the cursor is past index 0 (buffer growth)", "edr_refill_cap8_len16(_at_4_8) (C04/C05)"),
- "C04-s1": ("C04", "exactly one byte left in the source after an element that consumed the whole buffer", "cut_b14_then_one_byte (C12/C04)"),
+ "C04-s1": ("C04", "exactly one byte left in the source after an element that consumed the whole buffer", "NOT CAUGHT by a registered check: the purpose-built harness cut_b14_then_one_byte finds it (see runs) but cannot be proved on the correct tree within 32 GB, so it is not registered"),
  "C04-s2": ("C04", "with_capacity(.., 0)", "edr_first_fill_cap0_len1, slice_u2_b1_cap0, chunk_u2_b1_cap0"),
  "C05-s1": ("C05", "try_recover() with the cursor at the end of the buffered data / exhausted source", "c14_recover_at_end, c14_recover_arbitrary_3"),
  "C05-s2": ("C05", "buffered master + EOF closing disabled + stream ending inside the master", "NOT CAUGHT: buffer_master is out of reach (C08 n/a; hang-freedom is only argued)"),
  "C09-s1": ("C09", "Master::Full written with an explicit size width >= 2", "NOT CAUGHT: Full goes through the recursive public write (DESIGN §11)"),
- "C09-s2": ("C09", "destination whose write() accepts fewer bytes than offered", "c09_flush_short_1/3: CBMC reports the failing assertion, witness extraction was pathological (see runs)"),
+ "C09-s2": ("C09", "destination whose write() accepts fewer bytes than offered", "c09_flush_short_2_of_5 (the symbolic-length twins also fail, but their witness extraction is pathological)"),
  "C12-s1": ("C12", "input ending on a tag boundary with >= 2 masters open", "NOT CAUGHT: End emission at EOF (rn_eof_closes_*) needs > 60 GB in SAT (DESIGN §11)"),
- "C12-s2": ("C12", "cut leaving exactly one byte of the next tag, not yet buffered", "cut_b14_then_one_byte (C12/C04)"),
+ "C12-s2": ("C12", "cut leaving exactly one byte of the next tag, not yet buffered", "NOT CAUGHT by a registered check (same change as C04-s1)"),
  "C13-s1": ("C13", "OversizedTags tolerated and a declared size above the limit", "hdr_flat_full (C13/C17a)"),
- "C13-s2": ("C13", "unknown-size master between a known-size ancestor and the overrunning child", "NOT CAUGHT in the registered tiers: needs a 2-deep seeded stack (hdr_tree depth >= 2 is intractable, DESIGN §11)"),
+ "C13-s2": ("C13", "unknown-size master between a known-size ancestor and the overrunning child", "hdr_contain_ku (added after this seed: containment on deep stacks with minimal symbolic state)"),
  "C15-s1": ("C15", "negative value at signed-vint width 8", "c15_signed_default, c15_signed_with_length, c15_read_signed_total"),
  "C15-s2": ("C15", "value with bit 63 set", "c15_is_vint"),
  "C16-s1": ("C16", "slice of length 1..7 starting with 0x80", "c16_arr_to_i64"),
@@ -25,6 +25,20 @@ T = {
  "C17-s1": ("C17", "OversizedTags tolerated and a declared size above the limit", "hdr_flat_full"),
  "C17-s2": ("C17", "long stream: every refill near the buffer end grows the allocation", "edr_refill_cap16_len16_at_6_8 (C17b allocation bound)"),
  "C19-s1": ("C19", "End for a non-open id while an unknown-size master is innermost", "c19_end_tag_outer_id_inner_unknown, c19_end_tag_any_id_inner_unknown"),
+ "C02-s1": ("C02", "signed Integer value in [2^31, 2^32) (read from a zero-padded 5-8 byte encoding) written back", "c16w_int_w0_c8 (tagged C16/C09/C01/C02)"),
+ "C02-s2": ("C02", "unknown-size master containing a known-size master that contains a root element", "c11_vtree_root_a_uk"),
+ "C06-s1": ("C06", "same change as C02-s2 / C11-s1 (three agents independently dropped the reset of the closing point on a known-size master)", "c11_vtree_root_a_uk"),
+ "C06-s2": ("C06", "two nested known-size masters and a child that overruns the inner but fits the outer", "hdr_contain_kk"),
+ "C07-s1": ("C07", "four nested master levels, three unknown-size, followed by a new instance of a non-direct, non-root ancestor", "c07_is_ended_by_table (after spec Tree got a 4th master level; with 3 levels every non-direct ancestor is a root, so the change was invisible)"),
+ "C07-s2": ("C07", "unknown-size master as last child of a known-size master, followed by more elements", "NOT CAUGHT: close-by-size phase of read_next (rn_size_closes_* intractable)"),
+ "C10-s1": ("C10", "write_raw() under [known-size, unknown-size] open masters", "c10_raw_unknown_in_known"),
+ "C10-s2": ("C10", "flush()/into_inner() with an opened-but-empty known-size master and an empty buffer", "NOT CAUGHT by a registered check: c10_flush_closes_empty_master finds it (see runs) but the public flush() cannot be proved on the correct tree (out of memory), so it is not registered"),
+ "C11-s1": ("C11", "same change as C02-s2", "c11_vtree_root_a_uk, c11_vtree_root_a_b_ukk"),
+ "C11-s2": ("C11", "global placeholder with min >= 1 and fewer masters open than min", "c11_validate_p1_c0, c11_validate_p2_c1"),
+ "C14-s1": ("C14", ">= 2 junk bytes of a long-id class close to the end of input", "c14_recover_junk2 (thorough tier only); quick: not caught"),
+ "C14-s2": ("C14", "run of >= 8 zero bytes before a 1-byte id", "hdr_flat_full (zero first byte accepted as id padding: assertion tagged C13/C03/C14)"),
+ "C18-s1": ("C18", "easy_ebml! declaration with a placeholder (-N)", "c18_tables_d2"),
+ "C18-s2": ("C18", "path of depth >= 3 whose grand-parent is not a master / misaligned", "OUTSIDE THE CLAIM: compile-error half of C18 (only rustc observes it); demo confirmed by the sub-agent only"),
  "C19-s2": ("C19", "utf8 element with explicit width and length >= 2^(7w)-1", "c19_utf8_width1_len127"),
 }
 for sid, (prop, needs, expect) in sorted(T.items()):
@@ -33,14 +47,16 @@ for sid, (prop, needs, expect) in sorted(T.items()):
     p = os.path.join(d, "runs.jsonl")
     if os.path.exists(p):
         runs = [json.loads(l) for l in open(p) if l.strip()]
-    caught = any(r["exit"] == 1 for r in runs)
+    unregistered = sid in ("C04-s1", "C12-s2", "C10-s2")  # found only by a harness that cannot pass on the correct tree and is therefore not registered
+    caught = any(r["exit"] == 1 for r in runs) and not unregistered
     meta = {
         "id": sid, "breaks_property": prop, "needs_to_manifest": needs,
         "source": "written by an independent sub-agent that saw only the property text and a scratch worktree",
-        "confirmed": "tools/confirm_seed.sh: demo passes on unpatched HEAD, patched tree compiles and the 36 tests + 6 doctests pass, demo fails patched",
+        "confirmed": "tools/confirm_seed.sh: demo passes on unpatched HEAD, patched tree compiles and the 36 tests + 6 doctests pass, demo fails patched" + (" (C18: run by hand with --features derive-spec)" if sid.startswith("C18") else ""),
         "expected_detection": expect,
         "check_runs": runs,
         "caught": caught,
+        "found_only_by_unregistered_harness": unregistered,
         "agent_notes": open(os.path.join(d, "agent_notes.txt")).read(),
     }
     json.dump(meta, open(os.path.join(d, "meta.json"), "w"), indent=1)
